@@ -478,6 +478,8 @@ func (w *World) coinbase(idx int, h uint64, pk int, rewards map[string]uint64, m
 			i = 1
 		}
 		outs[i].Amount++
+	case "cb-proposer-plus": // the proposer's own output (position 0) pays more than the table says, whatever the table holds for it
+		outs[0].Amount += 1 + uint64(abs(mutArg)%1000)
 	case "cb-amount-minus1":
 		for _, o := range outs {
 			if o.Amount > 0 {
